@@ -22,7 +22,7 @@ META = {
     },
 }
 
-CLASSES = ["span-hostile", "span-hostile", "span", "explicit", "nested_explicit", "nested", "zero", "empty", "long", "deepnest"]
+CLASSES = ["span-hostile", "span-hostile", "span", "explicit", "nested_explicit", "nested", "zero", "empty", "long", "deepnest", "block_explicit", "block_explicit_je"]
 
 
 def plan(tier: str, seed: int) -> List[Dict[str, Any]]:
@@ -184,6 +184,19 @@ def run_shard(shard: Dict[str, Any]) -> Acc:
         prog = gen_case(rng, cls)
         acc.hist("class", cls)
         flags: Dict[str, Any] = {}
+        if cls == "block_explicit_je":
+            # known finding (DESIGN.md 9.2): a sub-circuit added through add_operation with a JOINED_END relation hands that relation
+            # to its head operations, each of which then ENDS with the reference instead of starting with the block.  The class
+            # exists to keep the finding observable; everything it reports is keyed by that mechanism.
+            sub = Acc()
+            common.guarded(sub, check_program, prog, sub, flags, case={"program": prog})
+            acc.merge_counts(sub.counters)
+            acc.count("explicit_joined_end_block_programs")
+            for f in sub.findings:
+                acc.finding("explicit-block/JOINED_END", "a sub-circuit with an explicit JOINED_END relation does not end with its reference: its head operations do (" + f["sig"] + ")",
+                            f["case"], f["detail"])
+            acc.case(bp.phash(prog), True, sample=None)
+            continue
         common.guarded(acc, check_program, prog, acc, flags, case={"program": prog})
         acc.case(bp.phash(prog), bool(flags.get("nontrivial")), sample=prog if i < 40 else None)
     return acc
